@@ -7,6 +7,7 @@ import JaxVerif.Generated.Storage
 import JaxVerif.Generated.Skeleton
 import JaxVerif.Lemmas.Flags
 import JaxVerif.Source.Trees
+import JaxVerif.Source.Storage
 
 namespace JV
 
@@ -65,5 +66,13 @@ theorem C12_source_flags (env : TEnv) (ac : Catch) (hf : FlattenKept env.leafChe
       some (if env.bare then (st, .T)
             else pytreeInstancecheck (goodSkel ac) env.leafCheck env.leafAny env.S env.x st) :=
   source_tree_instancecheck env ac hf st
+
+/-- the flatten-mode flag itself, from the source read today (`clear_` / `set_` / `get_treeflatten_memo`): a thread that
+    never touched it reads False; clear and set store False and True, nothing else -/
+theorem C12_source_flag_cell (ctx : KCtx) (cell : Option KVal) (h : FlattenCellOk cell) :
+    runCellFn Generated.treeflattenFuns ctx Generated.clearTreeflattenCode cell = some (some (.bool false), .inl .none) ∧
+    runCellFn Generated.treeflattenFuns ctx Generated.setTreeflattenCode cell = some (some (.bool true), .inl .none) ∧
+    runCellFn Generated.treeflattenFuns ctx Generated.getTreeflattenCode cell = some (cell, .inl (.bool (flattenOfCell cell))) :=
+  source_cell_flatten ctx cell h
 
 end JV
